@@ -630,3 +630,31 @@ Definition valid_ftree (t : ftree) : bool := valid_utree (u_of_t t).
 Definition is_tdir (t : ftree) : bool := match t with TDir _ => true | _ => false end.
 (* `car create` without --no-wrap packs the source below a directory entry named after it *)
 Definition wrap (nm : name) (t : ftree) : ftree := TDir [(nm, t)].
+
+(* ------------------------------------------------------------------------------------ *)
+(* permission bits                                                                        *)
+
+(* The extraction code makes no chmod/chown/utimes call: permission bits are a table next to the
+   file system that no operation of the model touches.  An object that was there before keeps its
+   bits (open(O_TRUNC) keeps them); an object the extraction creates gets what mkdir(0755),
+   open(..., 0666) and symlink give under umask 022. *)
+Definition modes := list (phys * N).
+
+Fixpoint assoc_m (m : modes) (p : phys) : option N :=
+  match m with
+  | [] => None
+  | (q, x) :: t => if phys_eqb p q then Some x else assoc_m t p
+  end.
+
+Definition default_mode (n : node) : N :=
+  match n with
+  | NDir => 493      (* 0755 *)
+  | NFile _ => 420   (* 0644 *)
+  | NLink _ => 511   (* 0777 *)
+  end.
+
+Definition mode_of (m : modes) (fs : fsmap) (p : phys) : option N :=
+  match look fs p with
+  | None => None
+  | Some n => Some (match assoc_m m p with Some x => x | None => default_mode n end)
+  end.
